@@ -45,6 +45,67 @@ struct Open {
     bare_extras: bool,
 }
 
+/// Count a tolerated refusal under a key that names the space and the reason (the supervisor lists every such
+/// counter that is not 0): "refused: <space>: <what>".
+fn refused(ctx: &mut Ctx, what: &str) {
+    let space = ctx.spaces.last().map(|s| s.0.clone()).unwrap_or_default();
+    ctx.bump(&format!("refused: {space}: {what}"), 1);
+}
+
+/// The (kind, record id, term id) of the `annotate_*` call that `drive::build` reports as failed.
+fn failed_annotate(e: &str) -> Option<(crate::model::Kind, u32, u32)> {
+    use crate::model::Kind;
+    for (prefix, kind) in [("annotate_gene(", Kind::Gene), ("annotate_omim_disease(", Kind::Omim), ("annotate_orpha_disease(", Kind::Orpha)] {
+        if let Some(rest) = e.strip_prefix(prefix) {
+            let (args, _) = rest.split_once(')')?;
+            let (id, term) = args.split_once(',')?;
+            return Some((kind, id.trim().parse().ok()?, term.trim().parse().ok()?));
+        }
+    }
+    None
+}
+
+/// Is the failed call of `e` one that `excuse` grants? `excuse(earlier facts, the failing fact)`; if the same
+/// (kind, record, term) occurs more than once, any occurrence that is granted will do.
+fn failed_call_is_open(f: &Facts, e: &str, excuse: &dyn Fn(&[AnnFact], &AnnFact) -> bool) -> bool {
+    let Some((kind, id, term)) = failed_annotate(e) else {
+        return false;
+    };
+    f.anns.iter().enumerate().any(|(i, a)| a.kind == kind && a.id == id && a.term == Some(term) && excuse(&f.anns[..i], a))
+}
+
+/// "The three kinds never leak": the id of a record of one kind, asked of the lookup of ANOTHER kind that has no
+/// record with this id (neither in the facts nor in what the ontology itself iterates), finds nothing. (The
+/// observation only looks up ids under the kind whose iterator produced them.)
+fn kinds_do_not_leak(ctx: &mut Ctx, ont: &Ontology, obs: &Obs, r: &RefOnt, path: &str, case: &dyn Fn() -> Value) {
+    for k in KINDS {
+        for id in r.recs[k.idx()].keys() {
+            for j in KINDS {
+                if j == k || r.recs[j.idx()].contains_key(id) || obs.recs[j.idx()].iter().any(|x| x.id == *id) {
+                    continue;
+                }
+                let found = guard(|| match j {
+                    Kind::Gene => ont.gene(&(*id).into()).map(|g| g.name().to_string()),
+                    Kind::Omim => ont.omim_disease(&(*id).into()).map(|d| hpo::annotations::Disease::name(d).to_string()),
+                    Kind::Orpha => ont.orpha_disease(&(*id).into()).map(|d| hpo::annotations::Disease::name(d).to_string()),
+                });
+                let site = format!("Ontology::{}", crate::obs::kind_fn(j));
+                match found {
+                    Ok(None) => {}
+                    Ok(Some(name)) => {
+                        ctx.violation(&site, &format!("[{path}] finds a record for an id that only another kind has"), json!({"path": path, "case": case(), "difference": format!("{} id {id} asked of the {} lookup: found {:?}", k.name(), j.name(), name)}));
+                        return;
+                    }
+                    Err(p) => {
+                        ctx.violation(&site, &format!("[{path}] panics for an id that only another kind has"), json!({"path": path, "case": case(), "observed": p}));
+                        return;
+                    }
+                }
+            }
+        }
+    }
+}
+
 /// Observe `ont` and compare it with the model, granting what `open` leaves open. The information content is
 /// judged against the number of records the ontology itself reports (N) when bare extras are present.
 fn judge(ctx: &mut Ctx, ont: &Ontology, r: &RefOnt, mode: Mode, path: &str, case: &dyn Fn() -> Value, open: Open) -> Option<Obs> {
@@ -73,8 +134,26 @@ fn judge(ctx: &mut Ctx, ont: &Ontology, r: &RefOnt, mode: Mode, path: &str, case
             if let Some((site, sig, det)) = obs.diff(&exp, false) {
                 ctx.violation(&site, &format!("[{path}] {sig}"), json!({"path": path, "case": case(), "difference": det}));
             }
+            kinds_do_not_leak(ctx, ont, &obs, r, path, case);
             ctx.outcome(obs.fingerprint());
             Some(obs)
+        }
+    }
+}
+
+/// A file that lists a term id twice inside a record: whether a decoder accepts it is not stated (refusal or
+/// documented panic: counted). What the file SAYS is not open - a fact given twice is the same fact, and the rest of
+/// the file (terms, links, the other records, the bare records) is laid out as documented - so an ontology that is
+/// returned must be the one of the file's facts, each taken once (which implies that it is consistent with itself).
+fn repeated_ids_exact_or_refused(ctx: &mut Ctx, bytes: &[u8], r: &RefOnt, path: &str, case: &dyn Fn() -> Value) {
+    match drive::from_bytes(bytes) {
+        Ok(Ok(ont)) => {
+            ctx.bump("unspecified_layouts_accepted", 1);
+            judge(ctx, &ont, r, Mode::Defaults, path, case, Open { refusal: false, bare_extras: false });
+        }
+        Ok(Err(_)) | Err(_) => {
+            ctx.exec();
+            refused(ctx, "decoder refuses a term id listed twice inside a record");
         }
     }
 }
@@ -95,7 +174,7 @@ fn via_jax_open(ctx: &mut Ctx, f: &Facts, o: &JaxOpts, transitive: bool, what: &
         }
         Ok(Err(_)) if open.refusal => {
             ctx.exec();
-            ctx.bump("open_input_refused", 1);
+            refused(ctx, &format!("[{path}] loader refuses the open input"));
         }
         Ok(Err(e)) => {
             ctx.exec();
@@ -121,7 +200,7 @@ fn via_binary_open(ctx: &mut Ctx, f: &Facts, version: u8, what: &str, open: Open
         }
         Ok(Err(_)) if open.refusal => {
             ctx.exec();
-            ctx.bump("open_input_refused", 1);
+            refused(ctx, &format!("[binary v{version}] decoder refuses the open input"));
         }
         Ok(Err(e)) => {
             ctx.exec();
@@ -232,7 +311,8 @@ fn via_builder_unresolvable(ctx: &mut Ctx, f: &Facts, r: &RefOnt, mode: Mode, wh
         }
         Unresolvable::OpenCallPanicked => {
             ctx.exec();
-            ctx.bump("call_naming_an_absent_term_panicked_no_verdict", 1);
+            let space = ctx.spaces.last().map(|s| s.0.clone()).unwrap_or_default();
+            ctx.bump(&format!("no verdict: {space}: a call naming an absent term panicked"), 1);
         }
         Unresolvable::Built(ont) => {
             let case = || json!({"facts": f.to_json(), "order": what, "additional_calls": "after every annotate_*: the same call and one for a fresh record id (4000000), both with an absent term id; their return value is ignored", "absent_ids_used_in_rotation": absent});
@@ -452,7 +532,7 @@ pub fn explore(ctx: &mut Ctx, label: &str) {
     // accepted at all (the statement speaks of (record, term) facts); if the build succeeds everything else must hold
     for n in 2..=3usize {
         let dags = all_dags(n);
-        ctx.space(&format!("{label}/builder/D{n}/renamed-records"), &format!("{} labelled DAGs x 2^{n} subsets x |S|! orders; every later fact of a record spells the record's name differently (an annotate_* call that refuses the other spelling ends the case without verdict)", dags.len()));
+        ctx.space(&format!("{label}/builder/D{n}/renamed-records"), &format!("{} labelled DAGs x 2^{n} subsets x |S|! orders; every later fact of a record spells the record's name differently (an annotate_* call that refuses ANOTHER spelling of a record supplied before ends the run without verdict, counted; any other failing call is a violation), and once the odd spellings one per record (strict)", dags.len()));
         for d in &dags {
             for s in 1..(1u32 << n) {
                 if !ctx.take() {
@@ -486,8 +566,10 @@ pub fn explore(ctx: &mut Ctx, label: &str) {
                         ctx.validated();
                         let case = || json!({"facts": f.to_json(), "rust": f.to_rust(false)});
                         match drive::build(&f, Mode::Minimal) {
-                            // a Builder that insists on one name per record id leaves the statement intact
-                            Err(e) if e.starts_with("annotate_") => ctx.bump("open_input_refused", 1),
+                            // a Builder that insists on one name per record id leaves the statement intact - but only the
+                            // call that brings ANOTHER spelling for a record id supplied before is open; the first call
+                            // for a record, or one repeating the spelling, is a valid call whatever characters the name has
+                            Err(e) if failed_call_is_open(&f, &e, &|earlier, a| earlier.iter().any(|b| b.kind == a.kind && b.id == a.id && b.name != a.name)) => refused(ctx, "annotate_* refuses another spelling of the name of a record supplied before"),
                             Err(e) => ctx.violation("Builder", "[builder] construction fails on valid facts", json!({"case": case(), "observed": e})),
                             Ok(ont) => match crate::obs::Obs::of(&ont) {
                                 Err(inc) => ctx.violation(&inc.site, "[builder, renamed records] read API inconsistent or panicking", json!({"case": case(), "observed": inc.what})),
@@ -511,6 +593,28 @@ pub fn explore(ctx: &mut Ctx, label: &str) {
                         }
                         if variant == 1 {
                             break;
+                        }
+                    }
+                }
+                // the odd spellings (lower case, blanks, parentheses) used CONSISTENTLY, one per record: plain valid facts -
+                // a refusal here is not about a re-spelled record and is a violation
+                {
+                    let mut anns = groups.interleaved();
+                    for a in anns.iter_mut() {
+                        a.name = format!("{} (spelling {})", a.name.to_lowercase(), a.id % 7);
+                    }
+                    let f = Facts { anns, ..base.clone() };
+                    let r = RefOnt::derive(&f);
+                    ctx.transitions(f.n_steps());
+                    match drive::build(&f, Mode::Minimal) {
+                        Err(e) => {
+                            ctx.exec();
+                            ctx.violation("Builder", "[builder] construction fails on valid facts", json!({"case": f.to_json(), "observed": e, "order": "names with lower case, blanks and parentheses, one spelling per record"}));
+                        }
+                        // (through `judge`: besides the observation this asks every record id of the lookups of the other kinds)
+                        Ok(ont) => {
+                            let case = || json!({"facts": f.to_json(), "order": "names with lower case, blanks and parentheses, one spelling per record", "rust": f.to_rust(false)});
+                            judge(ctx, &ont, &r, Mode::Minimal, "builder", &case, Open { refusal: false, bare_extras: false });
                         }
                     }
                 }
@@ -736,7 +840,7 @@ pub fn explore(ctx: &mut Ctx, label: &str) {
                     let pf = crate::encode::project(&f, version);
                     let bytes = crate::encode::encode(&pf, &o);
                     ctx.transitions(pf.n_steps());
-                    super::c08::self_consistent_or_refused(ctx, &bytes, &format!("binary v{version}, first term id of every record repeated at its end"), &|| json!({"facts": pf.to_json(), "format_version": version}));
+                    repeated_ids_exact_or_refused(ctx, &bytes, &RefOnt::derive(&pf), &format!("binary v{version}, first term id of every record repeated at its end"), &|| json!({"facts": pf.to_json(), "format_version": version}));
                 }
                 // every record written twice (without its last term, then completely)
                 super::common::via_binary_repeated(ctx, &f, 3, "canonical");
@@ -859,7 +963,16 @@ pub fn explore(ctx: &mut Ctx, label: &str) {
                     continue;
                 };
                 // handles of another instance (same graph, no records) name the same terms
-                let skeleton = drive::build(&base, Mode::Minimal).ok();
+                let skeleton = match drive::build(&base, Mode::Minimal) {
+                    Ok(sk) => Some(sk),
+                    Err(e) => {
+                        // (the same terms and links without records: valid; without it the foreign-handle calls of this
+                        // case cannot be made)
+                        ctx.exec();
+                        ctx.violation("Builder", "[builder] construction fails on valid facts", json!({"case": base.to_json(), "observed": e}));
+                        None
+                    }
+                };
                 for &root in &ids {
                     let below: Vec<u32> = ids.iter().copied().filter(|t| *t == root || r.terms[t].ancestors.contains(&root)).collect();
                     let mut leaf_sets: Vec<Vec<u32>> = vec![below.clone()];
@@ -878,7 +991,7 @@ pub fn explore(ctx: &mut Ctx, label: &str) {
                             // (when sub_ontology has to accept is C14's sentence: a refused call constructs nothing to judge)
                             Ok(Err(_)) => {
                                 ctx.exec();
-                                ctx.bump("sub_ontology_refused_no_verdict", 1);
+                                refused(ctx, "sub_ontology refuses the call (no verdict here; C14 judges refusals)");
                             }
                             Err(p) => {
                                 ctx.exec();
@@ -911,10 +1024,11 @@ pub fn explore(ctx: &mut Ctx, label: &str) {
                 ctx.transitions(3 * f.n_steps());
                 let first = match crate::drive::build(&f, Mode::Defaults) {
                     Ok(o) => o,
-                    // a Builder that insists on unique symbols / names within a kind leaves the statement intact
-                    Err(e) if e.starts_with("annotate_") => {
+                    // a Builder that insists on unique symbols / names within a kind leaves the statement intact - only
+                    // the call whose name an EARLIER fact of the kind gave to another record is open
+                    Err(e) if failed_call_is_open(&f, &e, &|earlier, a| earlier.iter().any(|b| b.kind == a.kind && b.id != a.id && b.name == a.name)) => {
                         ctx.exec();
-                        ctx.bump("open_input_refused", 1);
+                        refused(ctx, "annotate_* refuses a name that another record of the kind carries");
                         continue;
                     }
                     Err(e) => {
@@ -935,7 +1049,7 @@ pub fn explore(ctx: &mut Ctx, label: &str) {
                         // is nothing to judge here)
                         Ok(Ok(Err(_))) => {
                             ctx.exec();
-                            ctx.bump("as_bytes_output_refused_no_verdict", 1);
+                            refused(ctx, "from_bytes refuses the output of as_bytes (no verdict here; C07 judges it)");
                             break;
                         }
                         Err(p) | Ok(Err(p)) => {
@@ -1003,8 +1117,14 @@ pub fn explore(ctx: &mut Ctx, label: &str) {
                         }
                     };
                     drop(src);
-                    if let (Some(after), Ok(before)) = (drive::check_against_model(ctx, &copy, &r, Mode::Defaults, &format!("{path} -> clone"), &case), before) {
-                        drive::check_same(ctx, &before, &after, &format!("{path} -> clone vs. its source"), &case);
+                    let after = drive::check_against_model(ctx, &copy, &r, Mode::Defaults, &format!("{path} -> clone"), &case);
+                    match (after, before) {
+                        (Some(after), Ok(before)) => {
+                            drive::check_same(ctx, &before, &after, &format!("{path} -> clone vs. its source"), &case);
+                        }
+                        // (the source could not be observed: reported, not dropped - the comparison with the clone is gone)
+                        (_, Err(inc)) => ctx.violation(&inc.site, &format!("[{path}, source of the clone] read API inconsistent or panicking"), json!({"case": case(), "observed": inc.what})),
+                        (None, Ok(_)) => {}
                     }
                 }
                 ctx.sample(|| json!({"dag": d.describe(), "ids": ids, "S": crate::space::bits(s, n)}));
@@ -1072,9 +1192,10 @@ pub fn explore(ctx: &mut Ctx, label: &str) {
                             let case = || json!({"facts": f.to_json(), "order": what, "rust": f.to_rust(true)});
                             judge(ctx, &ont, &r, Mode::Defaults, "builder", &case, open);
                         }
-                        Err(e) if open.refusal && e.starts_with("annotate_") => {
+                        // (only the call for record id 0 itself is open)
+                        Err(e) if open.refusal && failed_annotate(&e).is_some_and(|(_, id, _)| id == 0) => {
                             ctx.exec();
-                            ctx.bump("open_input_refused", 1);
+                            refused(ctx, "annotate_* refuses record id 0");
                         }
                         Err(e) => {
                             ctx.exec();
